@@ -344,6 +344,17 @@ def c01(rep, tier):
         if init is None or init.get('k') != 'init':
             Cc.unknown(inst, 'factory body is not a single aggregate return')
             continue
+        # the operands are stored as given: the factory does not change a parameter on the way (the generator parks label numbers in jump operands)
+        pds = {p_['d']: p_['name'] for p_ in f.get('params', [])}
+        for x_ in walk_all_exprs(f['body']):
+            t_ = None
+            if x_.get('k') == 'assign':
+                t_ = strip_casts(x_['l'])
+            elif x_.get('k') == 'un' and x_.get('op') in ('++', '--'):
+                t_ = strip_casts(x_['e'])
+            if t_ is not None and t_.get('k') == 'ref' and t_.get('d') in pds:
+                why.append('the parameter %s is changed before it is stored (%s): the instruction does not carry the operand it was given - e.g. a label number parked in a jump operand '
+                           'becomes another label' % (pds[t_['d']], show(x_)[:50]))
         flds = dict(init['fields'])
         opv = strip_casts(flds.get('op'))
         if not (opv is not None and opv.get('dk') == 'enumerator' and opv['name'] == fs['op']):
